@@ -480,6 +480,11 @@ static unsigned pickAddr(Rng &R, int window) {
   }
 }
 
+// The property fixes no duration for the settle time between CANOpen() and the first claim: after the nominal start-up
+// sequence the generators keep polling until the node reports that it is open (a later opener is a late joiner).
+static void untilOpen1() { for (int k = 0; k < 40 && !B[0].n->isOpen(); k++) { exec("t 50"); exec("poll"); } }
+static void untilOpen2(size_t i) { for (int k = 0; k < 40 && !B[i].n->isOpen(); k++) { exec("t 50"); exec("p " + std::to_string(i)); } }
+
 // ------------------------------------------------------------------------------------------------ level 1
 // an application send: the Source field of the message is NOT the device address (default-constructed tN2kMsg has 15)
 static void genSend(Rng &R, int nd) {
@@ -514,7 +519,7 @@ static void level1Pressure(Rng &R) {
   if (wrapCase) origin = (origin & ~0xFFFFFFFFULL) | (0x100000000ULL - 470 - R.below(2600));
   std::string l = std::string("reset ") + FLAVOR + " " + std::to_string(R.chance(1, 2) ? 1 : 2) + " " + std::to_string(origin);
   std::vector<uint64_t> names; for (int i = 0; i < nd; i++) { names.push_back(mkName(R, 10 + i)); l += " " + std::to_string((a0 + 2 * i) % 252) + ":" + hx(names[i]); }
-  exec(l); exec("t 1"); exec("poll"); exec("t 201"); exec("poll"); exec("t 251"); exec("poll"); exec("changed");
+  exec(l); exec("t 1"); exec("poll"); exec("t 201"); exec("poll"); untilOpen1(); exec("t 251"); exec("poll"); exec("changed");
   Node &N = *B[0].n;
   static const unsigned long fps[] = {129029UL, 129540UL, 130577UL, 127489UL, 130816UL};
   static const int waits[] = {0, 1, 50, 98, 99, 100, 101, 150, 400, 2500, 2500, 5000};
@@ -599,7 +604,7 @@ static void level1Exhaust(Rng &R, int variant = -1) {
   std::string l = std::string("reset ") + FLAVOR + " " + std::to_string(R.chance(1, 2) ? 1 : 2) + " " + std::to_string(nextOrigin(R));
   std::vector<uint64_t> nm; for (int i = 0; i < nd; i++) nm.push_back(mkName(R, 20 + i));
   for (int i = 0; i < nd; i++) l += " " + std::to_string((start + 30 * i) % 252) + ":" + hx(nm[i]);
-  exec(l); exec("t 1"); exec("poll"); exec("t 201"); exec("poll");
+  exec(l); exec("t 1"); exec("poll"); exec("t 201"); exec("poll"); untilOpen1();
   if (variant == 3) { exec("claim 251 " + hx(0x900)); exec("changed"); exec("t 251"); exec("poll"); }          // loses 251, takes 0, holds it for 250 ms
   if (variant == 4) { exec("t 251"); exec("poll"); exec("cmdaddr " + hx(nm[0]) + " 0 255"); exec("changed"); if (R.chance(1, 2)) { exec("t 251"); exec("poll"); } }
   Node &N = *B[0].n; int d = variant >= 0 ? 0 : (int)R.below(nd); bool expire = variant < 0 && R.chance(1, 3);
@@ -669,7 +674,7 @@ static bool runSchedule(const std::vector<NodeSpec> &ns, uint64_t origin, Choose
     if (a.kind == 0) exec("d " + std::to_string(a.i));
     else if (a.kind == 1) {
       if (B[a.i].lib) { exec("t 1"); exec("p " + std::to_string(a.i)); exec("t " + std::to_string(randomTimes ? ch.rnd->range(199, 202) : 201)); exec("p " + std::to_string(a.i));
-        if (!B[a.i].n->isOpen()) { exec("t 2"); exec("p " + std::to_string(a.i)); } }
+        if (!B[a.i].n->isOpen()) { exec("t 2"); exec("p " + std::to_string(a.i)); } untilOpen2(a.i); }
       else exec("p " + std::to_string(a.i));
     } else if (a.kind == 2) {
       exec("t " + std::to_string(randomTimes ? dts[ch.rnd->below(7)] : 251));
@@ -742,7 +747,7 @@ static void level2Wall(Rng &R, int nLibDevs) {
   ns.push_back(l);
   for (unsigned a = 0; a <= 251; a++) { NodeSpec f; f.lib = false; f.mode = 0; f.selfCfg = false; f.started = true; f.devs.push_back({a, 0x1000 + a}); ns.push_back(f); }
   exec(busLine(ns, nextOrigin(R)));
-  exec("t 1"); exec("p 0"); exec("t 201"); exec("p 0"); exec("changed 0");
+  exec("t 1"); exec("p 0"); exec("t 201"); exec("p 0"); untilOpen2(0); exec("changed 0");
   for (int round = 0; round < 400000 && !allEmpty(); round++) {
     // the library node answers immediately, the others in a seeded order
     if (!B[0].inbox.empty() && R.chance(2, 3)) { exec("d 0"); exec("changed 0"); continue; }
@@ -751,7 +756,7 @@ static void level2Wall(Rng &R, int nLibDevs) {
     exec("d " + std::to_string(pick)); if (pick == 0) exec("changed 0");
   }
   exec("q"); exec("changed 0");
-  for (int d = 0; d < nLibDevs; d++) if (B[0].n->src(d) != 254) C.fail("C03:wall-not-null", "device %d ended at %u although every address is held by a lower NAME", d, B[0].n->src(d));
+  for (int d = 0; d < nLibDevs && B[0].n->isOpen(); d++) if (B[0].n->src(d) != 254) C.fail("C03:wall-not-null", "device %d ended at %u although every address is held by a lower NAME", d, B[0].n->src(d));
   C.count("wall_cases");
 }
 
